@@ -68,9 +68,10 @@ convexhull(PyObject* self, PyObject* args) {
     holdref r(array);
 	unsigned h;
     std::vector<Point> Pv;
+    // the wrapper changes the reference count of `array`: build it while holding the GIL
+    const numpy::aligned_array<bool> barray(array);
     try { // Release GIL
         gil_release nogil;
-        const numpy::aligned_array<bool> barray(array);
         const int N0 = barray.dim(0);
         const int N1 = barray.dim(1);
         for (int y = 0; y != N0; ++y) {
